@@ -25,6 +25,7 @@ const (
 	AFresh    // freshly constructed non-nil error
 	ANonNil   // unknown but non-nil (make, new, closure)
 	ATuple
+	AContainer // a non-nil map/slice/array whose elements are known abstractly: Tup[0] is the default element, Keys the elements at constant keys; flows through calls with the container value
 	ATop
 )
 
@@ -34,6 +35,41 @@ type AVal struct {
 	Sym string
 	G   *ssa.Global
 	Tup []AVal
+	Keys map[string]AVal
+}
+
+// containerOf builds a container value: every element is def except those at the given constant keys.
+func containerOf(def AVal, keys map[string]AVal) AVal {
+	return AVal{K: AContainer, Tup: []AVal{def}, Keys: keys}
+}
+
+// sliceOfStructs: a non-nil slice of n elements whose struct fields have the given abstract values.
+func sliceOfStructs(n int64, fields map[string]AVal) AVal {
+	fk := map[string]AVal{}
+	for k, v := range fields {
+		fk["."+k] = v
+	}
+	return AVal{K: AContainer, Tup: []AVal{{K: AContainer, Tup: []AVal{top}, Keys: fk}}, Keys: map[string]AVal{"#len": cInt(n)}}
+}
+
+func (a AVal) elemAt(idx AVal) AVal {
+	if a.K != AContainer {
+		return top
+	}
+	if idx.isConst() {
+		if v, ok := a.Keys[idx.C.ExactString()]; ok {
+			return v
+		}
+		return a.Tup[0]
+	}
+	// unknown key: the default joined with every special element
+	v := a.Tup[0]
+	for n, k := range a.Keys {
+		if n != "#len" {
+			v = join(v, k)
+		}
+	}
+	return v
 }
 
 var (
@@ -82,6 +118,13 @@ func (a AVal) String() string {
 		return "err:fresh"
 	case ANonNil:
 		return "nonnil"
+	case AContainer:
+		var ks []string
+		for k, v := range a.Keys {
+			ks = append(ks, k+":"+v.String())
+		}
+		sort.Strings(ks)
+		return "{*:" + a.Tup[0].String() + " " + strings.Join(ks, " ") + "}"
 	case ATuple:
 		var s []string
 		for _, t := range a.Tup {
@@ -109,6 +152,8 @@ func aEq(a, b AVal) bool {
 		return a.Sym == b.Sym
 	case ASentinel:
 		return a.G == b.G
+	case AContainer:
+		return a.String() == b.String()
 	case ATuple:
 		if len(a.Tup) != len(b.Tup) {
 			return false
@@ -142,7 +187,7 @@ func join(a, b AVal) AVal {
 	}
 	// non-nil-ness survives the join of non-nil things
 	nn := func(x AVal) bool {
-		return x.K == ANonNil || x.K == AFresh || x.K == ASentinel || (x.K == AConst && x.C != nil && x.C.Kind() == constant.String)
+		return x.K == ANonNil || x.K == AContainer || x.K == AFresh || x.K == ASentinel || (x.K == AConst && x.C != nil && x.C.Kind() == constant.String)
 	}
 	if nn(a) && nn(b) {
 		return nonNil
@@ -190,6 +235,7 @@ type fnState struct {
 }
 
 type SCCP struct {
+	rootFn *ssa.Function
 	c       *Ctx
 	sc      *Scenario
 	globals map[*ssa.Global]AVal
@@ -336,7 +382,7 @@ func (s *SCCP) compare(op token.Token, a, b AVal) AVal {
 		return cBool(!eq)
 	}
 	if op == token.EQL || op == token.NEQ {
-		nonnil := func(x AVal) bool { return x.K == ASentinel || x.K == AFresh || x.K == ANonNil }
+		nonnil := func(x AVal) bool { return x.K == ASentinel || x.K == AFresh || x.K == ANonNil || x.K == AContainer }
 		if a.isNil() && b.isNil() {
 			return res(true)
 		}
@@ -360,7 +406,14 @@ func (s *SCCP) compare(op token.Token, a, b AVal) AVal {
 		return cBool(constant.Compare(a.C, op, b.C))
 	}
 	if (a.K == ASym || b.K == ASym) && s.sc.Order != nil {
-		if c, ok := s.sc.Order(a, b); ok {
+		c, ok := s.sc.Order(a, b)
+		if !ok {
+			// the oracle is written for one orientation; a mirrored comparison (b ? a) is the same question
+			if c2, ok2 := s.sc.Order(b, a); ok2 {
+				c, ok = -c2, true
+			}
+		}
+		if ok {
 			switch op {
 			case token.EQL:
 				return cBool(c == 0)
@@ -610,6 +663,9 @@ func typePath(v ssa.Value) string {
 
 // run analyses fn with the given abstract arguments.
 func (s *SCCP) run(fn *ssa.Function, args []AVal, depth int) *fnState {
+	if depth == 0 && s.rootFn == nil {
+		s.rootFn = fn
+	}
 	key := argsKey(fn, args)
 	if st, ok := s.memo[key]; ok {
 		return st
@@ -627,6 +683,14 @@ func (s *SCCP) run(fn *ssa.Function, args []AVal, depth int) *fnState {
 		}
 		if b, ok := s.lookupBinding(s.sc.Params, fn, p.Name()); ok {
 			v = b
+		} else if depth == 0 && (s.rootFn == nil || s.rootFn == fn) {
+			// name-free keys for the root function: "type:<T>" (unique parameter of that type) or "type:<T>#k"
+			for _, k := range paramTypeKeys(fn, i) {
+				if b, ok := s.lookupBinding(s.sc.Params, fn, k); ok {
+					v = b
+					break
+				}
+			}
 		}
 		st.val[p] = v
 	}
@@ -790,6 +854,29 @@ func (s *SCCP) eval(st *fnState, v ssa.Value, get func(ssa.Value) AVal, depth in
 			if b, ok := s.bindingFor(s.sc.Paths, fn, x); ok {
 				return b
 			}
+			if ia, ok := x.X.(*ssa.IndexAddr); ok {
+				if cv := get(ia.X); cv.K == AContainer {
+					return cv.elemAt(get(ia.Index))
+				}
+			}
+			// field of a struct element of a container: the element is itself a container keyed by field name
+			if fa, ok := x.X.(*ssa.FieldAddr); ok {
+				if ia, ok := fa.X.(*ssa.IndexAddr); ok {
+					if cv := get(ia.X); cv.K == AContainer {
+						if el := cv.elemAt(get(ia.Index)); el.K == AContainer {
+							if st := derefStruct(fa.X.Type()); st != nil {
+								if v, ok := el.Keys["."+st.Field(fa.Field).Name()]; ok {
+									return v
+								}
+								return el.Tup[0]
+							}
+						}
+					}
+				}
+			}
+			if b, ok := s.elemsBinding(fn, x); ok {
+				return b
+			}
 			if g, ok := x.X.(*ssa.Global); ok {
 				if b, ok := s.sc.Globals[g.Pkg.Pkg.Name()+"."+g.Name()]; ok {
 					return b
@@ -815,6 +902,11 @@ func (s *SCCP) eval(st *fnState, v ssa.Value, get func(ssa.Value) AVal, depth in
 								n++
 							}
 						case *ssa.UnOp, *ssa.DebugRef:
+						case *ssa.MakeClosure:
+							// captured by a closure that only reads it: still assigned once
+							if closureWrites(y, al) {
+								return top
+							}
 						default:
 							return top // address escapes (field access, call argument)
 						}
@@ -903,6 +995,12 @@ func (s *SCCP) eval(st *fnState, v ssa.Value, get func(ssa.Value) AVal, depth in
 			}
 			return b
 		}
+		if cv := get(x.X); cv.K == AContainer {
+			if x.CommaOk {
+				return AVal{K: ATuple, Tup: []AVal{cv.elemAt(get(x.Index)), top}}
+			}
+			return cv.elemAt(get(x.Index))
+		}
 		if x.CommaOk {
 			return AVal{K: ATuple, Tup: []AVal{top, top}}
 		}
@@ -916,10 +1014,19 @@ func (s *SCCP) eval(st *fnState, v ssa.Value, get func(ssa.Value) AVal, depth in
 		if b, ok := s.bindingFor(s.sc.Paths, fn, x); ok {
 			return b
 		}
+		if cv := get(x.X); cv.K == AContainer {
+			return cv.elemAt(get(x.Index))
+		}
 		return top
 	case *ssa.FieldAddr, *ssa.IndexAddr, *ssa.Alloc, *ssa.MakeMap, *ssa.MakeSlice, *ssa.MakeChan, *ssa.MakeClosure:
 		return nonNil
 	case *ssa.Slice:
+		if cv := get(x.X); cv.K == AContainer {
+			return cv
+		}
+		if b, ok := s.elemsBinding(fn, x.X); ok {
+			return b
+		}
 		return top
 	case *ssa.Call:
 		return s.evalCall(st, x, get, depth)
@@ -981,7 +1088,12 @@ func (s *SCCP) evalCall(st *fnState, x *ssa.Call, get func(ssa.Value) AVal, dept
 		return b
 	}
 	v := s.evalCall1(st, x, get, depth)
-	if n := calleeName(cc); s.sc.AllErrorsNil && v.K != ABot && n != "fmt.Errorf" && n != "errors.New" {
+	isHelper := false
+	if sc := cc.StaticCallee(); sc != nil && isNewHelper(sc) {
+		_, bound := s.callBinding(st.fn, cc)
+		isHelper = !bound // its result was computed from its body under the same scenario
+	}
+	if n := calleeName(cc); s.sc.AllErrorsNil && !isHelper && v.K != ABot && n != "fmt.Errorf" && n != "errors.New" {
 		sig := cc.Signature()
 		if ei := errResultIndex(sig); ei >= 0 {
 			if sig.Results().Len() == 1 {
@@ -1017,6 +1129,11 @@ func (s *SCCP) evalCall1(st *fnState, x *ssa.Call, get func(ssa.Value) AVal, dep
 			if a.isNil() {
 				return cInt(0)
 			}
+			if a.K == AContainer {
+				if l, ok := a.Keys["#len"]; ok {
+					return l
+				}
+			}
 			return top
 		case "append":
 			return nonNil
@@ -1029,7 +1146,7 @@ func (s *SCCP) evalCall1(st *fnState, x *ssa.Call, get func(ssa.Value) AVal, dep
 		return fresh
 	}
 	sc := cc.StaticCallee()
-	if sc != nil && fnInModule(sc) && sc.Blocks != nil && depth < s.sc.MaxDepth && !s.sc.NoInline[name] && !s.sc.NoInline[shortCallee(cc)] {
+	if sc != nil && fnInModule(sc) && sc.Blocks != nil && (depth < s.sc.MaxDepth || isNewHelper(sc)) && !s.sc.NoInline[name] && !s.sc.NoInline[shortCallee(cc)] {
 		var args []AVal
 		for _, a := range cc.Args {
 			args = append(args, get(a))
@@ -1039,7 +1156,11 @@ func (s *SCCP) evalCall1(st *fnState, x *ssa.Call, get func(ssa.Value) AVal, dep
 				return bot
 			}
 		}
-		if cs := s.run(sc, args, depth+1); cs != nil {
+		nd := depth + 1
+		if isNewHelper(sc) {
+			nd = depth // a helper split off from a reference function is analysed as part of its caller
+		}
+		if cs := s.run(sc, args, nd); cs != nil {
 			if cs.result.K == ABot {
 				// callee never returns under these arguments (or only via panic)
 				return tupleOfTop(cc.Signature())
@@ -1090,12 +1211,16 @@ func (s *SCCP) analyse(fn *ssa.Function, args []AVal) *Trace {
 					lc.Result = st.val[v]
 				}
 				t.Calls = append(t.Calls, lc)
-				if sc := cc.StaticCallee(); sc != nil && fnInModule(sc) && sc.Blocks != nil && depth < s.sc.MaxDepth {
+				if sc := cc.StaticCallee(); sc != nil && fnInModule(sc) && sc.Blocks != nil && (depth < s.sc.MaxDepth || isNewHelper(sc)) {
 					if _, bound := s.callBinding(st.fn, cc); bound || s.sc.NoInline[lc.Callee] || s.sc.NoInline[lc.Short] {
 						continue
 					}
 					if cs, ok := s.memo[argsKey(sc, lc.Args)]; ok {
-						walk(cs, depth+1)
+						if isNewHelper(sc) {
+							walk(cs, depth)
+						} else {
+							walk(cs, depth+1)
+						}
 					}
 				}
 			}
@@ -1198,7 +1323,7 @@ func loopOver(st *fnState, path string, n int) loopExits {
 		if !ok {
 			continue
 		}
-		if bi, ok := lc.Call.Value.(*ssa.Builtin); !ok || bi.Name() != "len" || valuePath(lc.Call.Args[0]) != path {
+		if bi, ok := lc.Call.Value.(*ssa.Builtin); !ok || bi.Name() != "len" || (valuePath(lc.Call.Args[0]) != path && typePath(lc.Call.Args[0]) != path) {
 			continue
 		}
 		// the len() call may live in the preheader; ensure b is a loop header (has a back edge)
@@ -1394,4 +1519,86 @@ func (a *tableAcc) report(c *Ctx, r *Report, rule string, fn *ssa.Function) bool
 		return false
 	}
 	return true
+}
+
+// paramTypeKeys: name-free binding keys of parameter i of fn: "type:T" when it is the only parameter of type T,
+// and "type:T#k" (k-th parameter of that type, from 0) always. T is written with package names, not paths.
+func paramTypeKeys(fn *ssa.Function, i int) []string {
+	q := func(p *types.Package) string { return p.Name() }
+	T := types.TypeString(fn.Params[i].Type(), q)
+	n, k := 0, 0
+	for j, p := range fn.Params {
+		if types.TypeString(p.Type(), q) == T {
+			if j < i {
+				k++
+			}
+			n++
+		}
+	}
+	keys := []string{fmt.Sprintf("type:%s#%d", T, k)}
+	if n == 1 {
+		keys = append(keys, "type:"+T)
+	}
+	return keys
+}
+
+// elemsBinding: a container-typed value whose elements are bound by a path "X[]" (and no binding for X itself)
+// evaluates to a container of that element, so the binding follows the value into helpers.
+func (s *SCCP) elemsBinding(fn *ssa.Function, v ssa.Value) (AVal, bool) {
+	if len(s.sc.Paths) == 0 {
+		return bot, false
+	}
+	t := v.Type()
+	if u, ok := v.(*ssa.UnOp); ok && u.Op == token.MUL {
+		t = u.Type()
+	} else if p, ok := t.Underlying().(*types.Pointer); ok {
+		t = p.Elem()
+	}
+	switch t.Underlying().(type) {
+	case *types.Slice, *types.Array, *types.Map:
+	default:
+		return bot, false
+	}
+	for _, p := range []string{valuePathC(v), typePathC(v)} {
+		if p == "" {
+			continue
+		}
+		if b, ok := s.lookupBinding(s.sc.Paths, fn, p+"[]"); ok {
+			return containerOf(b, nil), true
+		}
+	}
+	return bot, false
+}
+
+// closureWrites: the closure (or a closure nested in it) stores to the captured variable bound to al.
+func closureWrites(mc *ssa.MakeClosure, al ssa.Value) bool {
+	fn, ok := mc.Fn.(*ssa.Function)
+	if !ok {
+		return true
+	}
+	for i, b := range mc.Bindings {
+		if b != al || i >= len(fn.FreeVars) {
+			continue
+		}
+		fv := fn.FreeVars[i]
+		if fv.Referrers() == nil {
+			continue
+		}
+		for _, rf := range *fv.Referrers() {
+			switch y := rf.(type) {
+			case *ssa.Store:
+				if y.Addr == ssa.Value(fv) {
+					return true
+				}
+			case *ssa.UnOp, *ssa.DebugRef:
+			case *ssa.MakeClosure:
+				if closureWrites(y, fv) {
+					return true
+				}
+			default:
+				return true // address used in some other way
+			}
+		}
+	}
+	return false
 }
